@@ -10,14 +10,17 @@ mod gen;
 mod model;
 
 mod c01;
+mod c02;
 mod c03;
 mod c04;
 mod c05;
 mod c07;
+mod c10;
 mod c15;
 mod c16;
 mod c17;
 mod c18;
+mod c19;
 mod c20;
 
 #[global_allocator]
@@ -46,6 +49,7 @@ fn main() {
         }
         "c01-model" => c01::model_leg(&args),
         "c01-sharded" => c01::sharded_leg(&args),
+        "c02-lin" => c02::lin_leg(&args),
         "c03-twin" => c03::twin_leg(&args),
         "c04-pipeline" => c04::pipeline_leg(&args),
         "c04-malformed" => c04::malformed_leg(&args),
@@ -59,6 +63,9 @@ fn main() {
         "c16-script" => c16::script_leg(&args),
         "c18-digest" => c18::digest_leg(&args),
         "c18-sync" => c18::sync_leg(&args),
+        "c10-wal" => c10::wal_leg(&args),
+        "c14-codec" => c10::codec_leg(&args),
+        "c19-place" => c19::place_leg(&args),
         "c15-parse" => c15::parse_leg(&args),
         "c15-frag" => c15::frag_leg(&args),
         "c15-reply" => c15::reply_leg(&args),
